@@ -175,7 +175,8 @@ def path_roundtrip(ctx, job, box):
 
 def jobs(tier):
     js = []
-    gs = [(2, 1), (2, 2)] if tier == 'quick' else [(1, 1), (2, 1), (2, 2), (3, 2)]
+    # three rows are needed for a scrolling region that does not start at the top row
+    gs = [(2, 1), (2, 2), (1, 3)] if tier == 'quick' else [(1, 1), (2, 1), (2, 2), (3, 2), (1, 3), (2, 3)]
     for g in gs:
         for op in ('set_mode', 'reset_mode'):
             for n in ((1,) if (tier == 'quick' and g != (2, 1)) else (1, 2)):
@@ -202,7 +203,7 @@ META = {
     'functions': ['set_mode', 'reset_mode', 'Screen::resize', 'erase_in_display', 'cursor_position',
                   'select_graphic_rendition', 'CharOpts::update_from_map', 'ParserListener::csi_dispatch'],
     'bounds': 'mode lists of 1..2 (thorough 3) symbolic numbers 0..=9999 with a symbolic private flag, from symbolic '
-              'states on {2x1,2x2} (thorough + {1x1,3x2}); the 132-column switch is executed for real; the DECCOLM '
+              'states on {2x1,2x2,1x3} (thorough + {1x1,3x2,2x3}); the 132-column switch is executed for real; the DECCOLM '
               'round trip SM ?3 / RM ?3 from every state',
     'outside': 'longer mode lists; grids wider than 3 columns other than the 132-column cases',
 }
